@@ -18,6 +18,7 @@ import (
 	"hash/fnv"
 	"strconv"
 	"strings"
+	"sync"
 
 	"github.com/MixinNetwork/mixin/common"
 	"github.com/MixinNetwork/mixin/config"
@@ -146,9 +147,87 @@ func chainBlake3(node crypto.Hash, number uint64, hashes []crypto.Hash) crypto.H
 	return h
 }
 
+// execConcurrent: `conc <seed> <goroutines> <iterations>` — the startup validator hashes every
+// node's rounds in its own goroutine (ValidateGraphEntries). g goroutines, released together, each
+// call storage.computeRoundHash `iterations` times on their own round (fresh slices every call);
+// every result must equal common.ComputeRoundHash of the same set and the sequential storage
+// result. Out is "ok" for a well-formed line; disagreement is a property failure.
+func execConcurrent(t []string) Result {
+	res := Result{Tags: []string{"conc"}, Out: "ok"}
+	seed, _ := strconv.ParseUint(t[1], 10, 64)
+	g, _ := strconv.Atoi(t[2])
+	iters, _ := strconv.Atoi(t[3])
+	if g < 2 || g > 64 || iters < 1 || iters > 100000 {
+		panic("harness: bad conc line")
+	}
+	r := NewRand(seed)
+	type job struct {
+		node   crypto.Hash
+		number uint64
+		in     []rhSnap
+		want   rhResult
+	}
+	jobs := make([]job, g)
+	for k := range jobs {
+		n := r.Range(8, 48)
+		base := 1500000000000000000 + r.U64()%1000000000000000
+		in := make([]rhSnap, n)
+		for i := range in {
+			in[i] = rhSnap{version: 2, ts: base + r.U64()%1000, hash: genHash(r)}
+		}
+		var node crypto.Hash
+		copy(node[:], r.Bytes(32))
+		jobs[k] = job{node: node, number: r.U64(), in: in}
+		jobs[k].want = runCommon(node, jobs[k].number, buildSnaps(in, nil))
+		if o := runStorage(node, jobs[k].number, withTopo(buildSnaps(in, nil), r)); o != jobs[k].want {
+			res.PropKey = "C18:validator-disagrees"
+			res.PropDesc = fmt.Sprintf("sequential storage.computeRoundHash gives %s, common.ComputeRoundHash %s", o, jobs[k].want)
+			return res
+		}
+	}
+	start := make(chan struct{})
+	bad := make([]string, g)
+	var wg sync.WaitGroup
+	for k := range jobs {
+		wg.Add(1)
+		go func(k int) {
+			defer wg.Done()
+			j := jobs[k]
+			// inputs prepared before the release, so that the timed part is the code under test
+			sets := make([][]*common.SnapshotWithTopologicalOrder, iters)
+			for i := range sets {
+				ss := buildSnaps(j.in, nil)
+				sets[i] = make([]*common.SnapshotWithTopologicalOrder, len(ss))
+				for x, sn := range ss {
+					sets[i][x] = &common.SnapshotWithTopologicalOrder{Snapshot: sn, TopologicalOrder: uint64(x)}
+				}
+			}
+			<-start
+			for i := 0; i < iters && bad[k] == ""; i++ {
+				if o := runStorage(j.node, j.number, sets[i]); o != j.want {
+					bad[k] = fmt.Sprintf("goroutine %d of %d, call %d: storage.computeRoundHash gives %s while other rounds are being hashed; common.ComputeRoundHash and the sequential validator give %s", k, g, i, o, j.want)
+				}
+			}
+		}(k)
+	}
+	close(start)
+	wg.Wait()
+	for _, b := range bad {
+		if b != "" {
+			res.PropKey, res.PropDesc = "C18:validator-disagrees", b
+			break
+		}
+	}
+	res.Nontrivial = true
+	return res
+}
+
 func execRoundHash(_ *State, line string) Result {
 	t := strings.Fields(line)
 	op := t[0]
+	if op == "conc" {
+		return execConcurrent(t)
+	}
 	res := Result{Tags: []string{op}}
 	node := hash32(UnHex(t[1]))
 	number, _ := strconv.ParseUint(t[2], 10, 64)
@@ -291,6 +370,9 @@ func sizeBucket(n int) int {
 }
 
 func genRoundCase(r *Rand, i int, tier string) []string {
+	if i%50 == 7 { // concurrent validator batches, spread over the run
+		return []string{fmt.Sprintf("conc %d %d %d", r.U64(), Pick(r, []int{4, 8, 12, 16}), Pick(r, []int{100, 200, 400}))}
+	}
 	gap := uint64(config.SnapshotRoundGap)
 	node := genHash(r)
 	number := genU64(r)
@@ -385,9 +467,11 @@ func init() {
 		Rule: "rounds of 0..64 snapshots supplied in random order, timestamps drawn from 1..4 values inside/at/over " +
 			"SnapshotRoundGap (also where start+gap wraps 2^64), hashes from a small pool (equal (timestamp,hash) pairs " +
 			"occur), version mixes; each case also run on all rotations (n<=8), the reverse and 4 random permutations and " +
-			"through the storage and kernel implementations; non-trivial = a hash was produced for >= 2 snapshots; " +
+			"through the storage and kernel implementations; every 50th case 4..16 goroutines call the storage validator " +
+			"concurrently on different rounds; non-trivial = a hash was produced for >= 2 snapshots; " +
 			"distinct = distinct op line",
 		Corpus: [][]string{
+			{"conc 1 8 400", "conc 2 16 200", "conc 3 4 400"},
 			{"rh " + z + " 0 0", "fin " + z + " 0 0", "rhs " + z + " 0 0"},
 			// equal timestamps, supplied in descending hash order: a timestamp-only sort keeps this order
 			{"rh " + z + " 7 3 2:100:" + c + " 2:100:" + b + " 2:100:" + a,
